@@ -19,7 +19,8 @@ from checks import raire_common as rc
 from vlib import env
 
 RULE = ("exhaustive enumeration of (ballot, assertion) pairs for each candidate count (a 'case' = one candidate count's "
-        "complete table), plus seeded random RAIRE files and RAIRE runs; non-trivial = the ballot ranks at least one of "
+        "complete table; two thirds of the ballots sit on one long-lived record), plus seeded random RAIRE files (a quarter "
+        "with non-ASCII names) and RAIRE runs; non-trivial = the ballot ranks at least one of "
         "the assertion's two candidates; distinct = (n, ballot, assertion) / hash of file / hash of profile")
 REQUIRED = ["assort_pairs_compared", "assort_pairs_nontrivial", "exhaustive_tables", "reader_entries_compared",
             "reader_files", "reapplied_NEB", "reapplied_NEN", "ballots_lacking_contest_compared", "ballots_on_a_reused_record", "reader_files_with_non_ascii_names"]
